@@ -698,18 +698,6 @@ DoubleSupport::isValid(const XalanDOMChar*      theString)
 
 
 
-inline double
-modfRound(double  theValue)
-{
-    double          intPart = 0;
-
-        std::modf(theValue + 0.5, &intPart);
-
-    return intPart;
-}
-
-
-
 double
 DoubleSupport::round(double     theValue)
 {
@@ -727,43 +715,28 @@ DoubleSupport::round(double     theValue)
     }
     else if (theValue == 0)
     {
-        return 0.0;
-    }
-    else if (theValue > 0)
-    {
-        // If the value is less than the maximum value for
-        // a long, this is the fastest way to do it.
-        if (theValue < LONG_MAX)
-        {
-            return long(theValue + 0.5);
-        }
-        else
-        {
-            return modfRound(theValue);
-        }
+        // Preserve the sign of zero.
+        return theValue;
     }
     else
     {
-        // Negative numbers are a special case.  Any time we
-        // have -0.5 as the fractional part, we have to
-        // round up (toward 0), rather than down.
-        double          intPart = 0;
+        // The difference between a number and its floor is always
+        // exact, so there is no intermediate rounding that could
+        // move the result to the wrong integer.  Numbers with an
+        // absolute value of 2^52 or more are already integers.
+        const double    theFloor = std::floor(theValue);
 
-        const double    fracPart = 
-            std::modf(theValue, &intPart);
+        const double    theResult =
+            theValue - theFloor >= 0.5 ? theFloor + 1.0 : theFloor;
 
-        const double    theAdjustedValue =
-            fracPart == -0.5 ? theValue + 0.5 : theValue - 0.5;
-
-        // If the value is greater than the minimum value for
-        // a long, this is the fastest way to do it.
-        if (theAdjustedValue > LONG_MIN)
+        // Values in the range [-0.5, 0) round to negative zero.
+        if (theResult == 0 && theValue < 0)
         {
-            return long(theAdjustedValue);
+            return s_negativeZero.d;
         }
         else
         {
-            return modfRound(theAdjustedValue);
+            return theResult;
         }
     }
 }
